@@ -18,10 +18,10 @@ ASSUMPTIONS = ['solver = shim (z3 -dimacs / DPLL) when python-sat is absent: any
 def design(tier, seed):
     from .. import tlc
 
-    r = tlc.run_model('GateLemmas', 'GateLemmas.cfg', workers=8, tag='C05-lemma', xmx='4g')
+    r = tlc.run_model('CnfLemmas', 'CnfLemmas.cfg', workers=16, tag='C05-lemma', xmx='6g')
     tlc.cleanup(r['workdir'])
     return {'states': r['distinct'], 'transitions': r['generated'],
-            'runs': [f'GateLemmas (gate tables, arity <= 4): {r["distinct"]} states, {r["wall_s"]:.1f}s']}
+            'runs': [f'CnfLemmas (the specification-level Tseytin encoder Cnf.Tseytin is exact on every netlist of U(2,2,15 types,3), three output selections): {r["distinct"]} states, {r["wall_s"]:.1f}s']}
 
 
 def sources(tier, seed, ctx):
